@@ -8,7 +8,7 @@ differential motion.
 """
 import itertools, math
 import numpy as np
-from mc import ref, alph
+from mc import ref, alph, hist
 from mc.core import call
 
 PROP = 'C13'
@@ -212,6 +212,22 @@ def adjoint_cases(ctx, k, K):
                 ctx.fail(cid, 'SE3.jacob', 'raises:' + type(r).__name__, P, 'SE3.jacob() raised %r' % (r,))
             else:
                 near(ctx, cid, 'SE3.jacob', dict(P, law='jacobian'), r, J, 1e-9, 'SE3.jacob() = blkdiag(R\', R\')')
+        # the same pose value in an object with a history (Ad / jacob already used before it received the value)
+        for tag, Xh in hist.variants(sm.SE3(T1.copy()), lambda o: (o.Ad(), o.jacob(), o.inv().Ad()), fresh=False):
+            cidh = 'C13/Ad/%s/hist=%s' % (n1, tag)
+            if not ctx.want(cidh):
+                continue
+            ctx.case(cidh, key=cidh, trivial=triv)
+            ok, r = call(lambda: (Xh.Ad(), Xh.jacob()))
+            if not ok:
+                ctx.fail(cidh, 'SE3.Ad', 'raises:' + type(r).__name__, dict(P, hist=tag), '%r' % (r,))
+            else:
+                R = T1[:3, :3]
+                J = np.zeros((6, 6))
+                J[:3, :3] = R.T
+                J[3:, 3:] = R.T
+                near(ctx, cidh, 'SE3.Ad', dict(P, law='definition', hist=tag), r[0], A1, 1e-9, 'Ad(T) after ' + tag)
+                near(ctx, cidh, 'SE3.jacob', dict(P, law='jacobian', hist=tag), r[1], J, 1e-9, 'jacob() after ' + tag)
         for (n2, T2) in G:
             cid = 'C13/AdAd/%s/%s' % (n1, n2)
             if ctx.want(cid):
@@ -266,6 +282,26 @@ def expad_cases(ctx, k, K):
         if np.abs(S[:3]).max() <= 10:
             E = ref.mp_expm(adr)
             near(ctx, cid, 'Twist3.Ad', dict(P, law='exp(ad S)'), r[1], E, 1e-7, 'exp(ad(S)) = Ad(exp(S))')
+        # the twist among M values (M = 2, 3) and in an object with a history: ad() of value j is the ad of value j
+        others = [np.array([1.0, 2.0, 3.0, 0.3, -0.2, 0.1]), np.array([-0.5, 0.0, 2.5, 0.0, 0.0, 0.0])]
+        for M, pos in ((2, 0), (2, 1), (3, 1)):
+            vals = [o.copy() for o in others[:M - 1]]
+            vals.insert(pos, S.copy())
+            ok, rm = call(lambda: sm.Twist3([v.copy() for v in vals]).ad())
+            Pm = dict(P, law='definition', M=M, pos=pos)
+            if not ok:
+                ctx.note('not_vectorised_refuses', 'Twist3.ad on %d values -> %s' % (M, type(rm).__name__))
+            elif not isinstance(rm, (list, tuple, np.ndarray)) or len(rm) != M:
+                ctx.fail(cid, 'Twist3.ad', 'mismatch', dict(Pm, what='count'), 'ad() of %d values returned %s' % (M, type(rm).__name__))
+            else:
+                near(ctx, cid, 'Twist3.ad', Pm, rm[pos], adr, 1e-12, 'ad() of value %d of %d' % (pos, M))
+        for tag, twh in hist.variants(sm.Twist3(S.copy()), lambda o: (o.ad(), o.Ad()), fresh=False):
+            ok, rh = call(lambda: (twh.ad(), twh.Ad()))
+            if not ok:
+                ctx.fail(cid, 'Twist3.ad', 'raises:' + type(rh).__name__, dict(P, hist=tag), '%r' % (rh,))
+            else:
+                near(ctx, cid, 'Twist3.ad', dict(P, law='definition', hist=tag), rh[0], adr, 1e-12, 'ad(S) after ' + tag)
+                near(ctx, cid, 'Twist3.Ad', dict(P, law='Ad(exp S)', hist=tag), rh[1], want, 1e-7, 'Ad() after ' + tag)
 
 
 def delta_cases(ctx):
